@@ -112,25 +112,38 @@ def match(p, v, b):
         items = p[1]
         xs = seq_items(v)
         si = [i for i, it in enumerate(items) if it[0] == "splat"]
+        # a defaulted item takes its default exactly when the value has no more items than there are non-splat targets
+        # before it; the defaults in play are appended to the items, which are then dealt out: targets before the splat from
+        # the front, targets after it from the back, the splat takes the rest
+        needed, seen = [], 0
+        for it in items:
+            if it[0] == "splat":
+                continue
+            if it[0] == "def" and len(xs) <= seen:
+                needed.append(it[2])
+            seen += 1
+        vals = list(xs) + needed
+
+        def give(it, x):
+            if it[0] == "def":
+                b[it[1]] = x
+            else:
+                match(it, x, b)
         if not si:
-            nreq = sum(1 for it in items if it[0] != "def")
-            if not (nreq <= len(xs) <= len(items)):
+            if len(vals) != len(items):
                 raise NoMatch()
-            for i, it in enumerate(items):
-                if it[0] == "def":
-                    b[it[1]] = xs[i] if i < len(xs) else it[2]
-                else:
-                    match(it, xs[i], b)
+            for it, x in zip(items, vals):
+                give(it, x)
         else:
             k = si[0]
             before, after = items[:k], items[k + 1:]
-            if len(xs) < len(before) + len(after):
+            if len(vals) < len(before) + len(after):
                 raise NoMatch()
-            for it, x in zip(before, xs):
-                match(it, x, b)
-            b[items[k][1]] = xs[len(before):len(xs) - len(after)]
-            for it, x in zip(after, xs[len(xs) - len(after):]):
-                match(it, x, b)
+            for it, x in zip(before, vals):
+                give(it, x)
+            b[items[k][1]] = vals[len(before):len(vals) - len(after)]
+            for it, x in zip(after, vals[len(vals) - len(after):]):
+                give(it, x)
     elif t == "or":
         b2 = dict(b)
         try:
@@ -627,7 +640,7 @@ def s_pattern_case(draw):
         if k == "seq":
             n = draw(st.integers(1, 4))
             items, vals = [], []
-            shape = draw(st.sampled_from(["plain", "plain", "splat", "default"]))
+            shape = draw(st.sampled_from(["plain", "plain", "splat", "default", "splat_default"]))
             for _ in range(n):
                 p, v = gen(d - 1, allow_lit)
                 items.append(p)
@@ -644,6 +657,16 @@ def s_pattern_case(draw):
                     items.append(["def", fresh(), draw(st.integers(5, 9))])
                     if j < given:
                         vals.append(draw(st.integers(0, 3)))
+            elif shape == "splat_default":
+                # one splat anywhere (also between the plain items and the defaults, or after them) plus trailing defaults;
+                # the value has between (plain count) and (plain + defaults + 2) items
+                nd = draw(st.integers(1, 2))
+                nplain = len(items)
+                pos = draw(st.integers(0, nplain + nd))
+                for j in range(nd):
+                    items.append(["def", fresh(), draw(st.integers(5, 9))])
+                items.insert(pos, ["splat", fresh()])
+                vals = vals + [draw(st.integers(0, 3)) for _ in range(draw(st.integers(0, nd + 2)))]
             return ["seq", items], vals
         if k == "or":
             how = draw(st.sampled_from(["lits", "types", "swap"])) if allow_lit else "types"
